@@ -64,10 +64,17 @@ CONFIG = {
         "assumptions": ["MDAnalysis masses, Merge and MemoryReader behave as documented"],
     },
     "C11": {
-        "level": "exploration", "proof": False, "rtc": True,
-        "explanation": "Bounded run-time contract: real AssignmentTool on continuous random placements and pseudotrajectory round trips "
-                       "against a brute-force oracle, with boundary margins excluded.",
-        "assumptions": ["placements within the stated margins of a cell boundary are excluded"],
+        "level": "other", "proof": True, "rtc": True,
+        "explanation": "Proved: the radial assignment (_t_assignment_function, both outlier policies: returned index is the nearest radius, "
+                       "first on ties; NaN iff the distance exceeds the last shell boundary, which is the same expression as "
+                       "get_between_radii's last boundary of contract C16), the index composition (t*n_o + o)*n_b + b with NaN "
+                       "propagation (get_full_assignments / _get_position_assignments), the second-molecule selection string, and the "
+                       "lemma nearest radius <=> containing shell. Bounded: direction and rotation assignment (cdist/argmin, principal "
+                       "axes, MDAnalysis) on continuous random placements against a brute-force oracle, margins excluded.",
+        "trusted_base": [NUMPY, "np.argmin returns the first index of a minimal element; np.linalg.norm = sqrt of the sum of squares",
+                         "ASSUMED callee contracts (bounded-checked): the per-frame MDAnalysis loops return one entry per frame"],
+        "assumptions": ["placements within the stated margins of a cell boundary are excluded",
+                        "MDAnalysis `bynum a:b` is 1-based inclusive and ignores atoms beyond the last one"],
     },
     "C14": {
         "level": "other", "proof": True, "rtc": True, "lean": ["lemmas/C14Stationary.lean"],
@@ -175,6 +182,29 @@ CONFIG["C19"] = {
     "level": "exploration", "proof": False, "rtc": True,
     "explanation": "Bounded run-time contract, exhaustive over the box (n_b, n_o) in {1..5}^2, n_t in {1,2,3}(,4), both modes, five getters "
                    "on the real code: correct shape, ValueError, or (Cartesian, n_o < 3) the geometry library's error.",
+    "assumptions": [],
+}
+
+CONFIG["C07"] = {
+    "level": "exploration", "proof": False, "rtc": True, "rtc_timeout": 3000,
+    "explanation": "Bounded run-time contract on the real grid constructions: every N in the stated ranges (quick: ico 1..642, cube3D "
+                   "1..386 + level-4 sample, randomS 1..300, cube4D/randomQ 1..80, fulldiv 8/40, zero grids and names; thorough: complete "
+                   "to ico 2562 / cube3D 1538 / 4-D 272 / fulldiv 2080): N rows, unit norm, pairwise distinct, separation bounds, "
+                   "canonical half, no two rows the same rotation, [G;-G] layout bitwise, N=1 grids.",
+    "assumptions": ["for large N the Voronoi construction is skipped (point sets compared bitwise with the factory path on a sample)"],
+}
+CONFIG["C08"] = {
+    "level": "exploration", "proof": False, "rtc": True, "rtc_timeout": 3000,
+    "explanation": "Bounded run-time contract: bit-identity (sha256 of dtype/shape/bytes) of grids and all geometry getters across "
+                   "repeated construction, seeded random histories of other constructions / getter calls / reseeding of numpy's global "
+                   "generator, fresh interpreters with different PYTHONHASHSEED, and the prefix property over thousands of (N, M) pairs.",
+    "assumptions": ["determinism of Qhull/LAPACK across processes is exercised, not proved"],
+}
+CONFIG["C18"] = {
+    "level": "exploration", "proof": False, "rtc": True, "rtc_timeout": 3000,
+    "explanation": "Bounded run-time contract, exhaustive over the stated levels (ico/cube3D 0..3 quick, 4 thorough; hypercube 0..2): node "
+                   "set = independently generated ideal lattice (bijection within 1e-9), negation closure, projections, permanent indices "
+                   "0..n-1 ordered by level and unchanged by later subdivisions and by interleaved histories, half-hypercube selection.",
     "assumptions": [],
 }
 
